@@ -184,10 +184,10 @@ RULE = ("generated programs whose handlers are generators built from yield delay
         "combinator, parked process carrying hooks, yield-from depth>=2, double resolve")
 
 OBLIGATIONS = [
-    Obligation("proc", case_strategy(False), execute_factory("proc"), {"quick": 2500, "thorough": 120000}, RULE),
-    Obligation("futures", case_strategy(True), execute_factory("futures"), {"quick": 2500, "thorough": 120000},
+    Obligation("proc", case_strategy(False), execute_factory("proc"), {"quick": 2000, "thorough": 120000}, RULE),
+    Obligation("futures", case_strategy(True), execute_factory("futures"), {"quick": 2000, "thorough": 120000},
                "same generator biased towards futures and combinators (>=2 futures, no past-stamped emits); same rule"),
-    Obligation("float", float_strategy, ex_float, {"quick": 1500, "thorough": 60000},
+    Obligation("float", float_strategy, ex_float, {"quick": 1200, "thorough": 60000},
                "one process yielding arbitrary finite float delays (0, sub-microsecond, fractions, up to 1e6 s) with and without "
                "side-effect events; resume offset must be floor/ceil of the exact delay in ns and side-effect events are delivered "
                "at the yield instant; non-trivial = a non-integer or sub-microsecond delay"),
